@@ -12,6 +12,7 @@ import (
 func init() {
 	zzvf.Register("VF_C04_L1_ReadGating", VF_C04_L1_ReadGating)
 	zzvf.Register("VF_C05_L1_CallGating", VF_C05_L1_CallGating)
+	zzvf.Register("VF_C06_L2_LoadingTrigger", VF_C06_L2_LoadingTrigger)
 }
 
 var vfGateKinds = []vfReqKind{
@@ -54,7 +55,7 @@ func vfRefGrants(call, method string) bool {
 // vfGating: request pairs on one connection against every access outcome,
 // answer order, and one revocation trigger (token event, reaccess event,
 // system reset) at any position.
-func vfGating(checkGet, checkCall bool) {
+func vfGating(checkGet, checkCall bool, checkRevoke ...bool) {
 	rich := zzvf.Param("rich") == 1
 	ntrig := zzvf.Param("triggers")
 	symCall := zzvf.Param("symcall")
@@ -191,6 +192,18 @@ func vfGating(checkGet, checkCall bool) {
 		}
 	}
 	zzvf.Reach("gating-end")
+	if len(checkRevoke) > 0 && checkRevoke[0] {
+		// C06: whatever the moment of the trigger relative to loading, a
+		// client that ends up directly subscribed holds a grant that was
+		// obtained after the last trigger
+		zzvf.Assert(vfQuiescent(w), "run-reaches-quiescence")
+		for _, name := range []string{"test.model", "test.parent", "test.collection"} {
+			if r.count[name] > 0 && r.directCount(name) > 0 {
+				zzvf.Reach("gating-still-subscribed")
+				zzvf.Assert(g.valid[name], "subscribed-only-under-a-grant-newer-than-the-last-trigger")
+			}
+		}
+	}
 }
 
 // vfTagDeferred marks the D7 window: a trigger reaches a subscription that
@@ -291,4 +304,5 @@ func vfCheckDataFrames(r *vfRun, g *vfGateState, frames []vfFrame) {
 }
 
 func VF_C04_L1_ReadGating() { vfGating(true, false) }
+func VF_C06_L2_LoadingTrigger() { vfGating(false, false, true) }
 func VF_C05_L1_CallGating() { vfGating(false, true) }
